@@ -17,3 +17,26 @@ pub fn ventry_push<K, T, S>(m: &mut IndexMap<K, Vec<T>, S>, k: K, x: T)
         final(m).spec_get(k).unwrap()@ == (match old(m).spec_get(k) { Some(v) => v@, None => Seq::<T>::empty() }).push(x),
         forall|k2: K| k2 != k ==> #[trigger] final(m).spec_get(k2) == old(m).spec_get(k2),
 { unimplemented!() }
+impl<K, V, S> IndexMap<K, V, S> {
+    /// the entries in insertion (= index) order; keys are pairwise distinct and `spec_get` is the lookup in it
+    pub uninterp spec fn entries(&self) -> Seq<(K, V)>;
+    /// documented IndexMap semantics (trusted): keys are unique, get(k) finds the entry with key k
+    #[verifier::external_body]
+    pub proof fn axiom_entries(&self)
+        ensures
+            forall|i: int, j: int| 0 <= i < j < self.entries().len() ==> (#[trigger] self.entries()[i]).0 != (#[trigger] self.entries()[j]).0,
+            forall|i: int| 0 <= i < self.entries().len() ==> self.spec_get((#[trigger] self.entries()[i]).0) == Some(self.entries()[i].1),
+            forall|k: K| (#[trigger] self.spec_get(k)) is Some ==> exists|i: int| 0 <= i < self.entries().len() && (#[trigger] self.entries()[i]).0 == k,
+    { }
+    #[verifier::external_body]
+    pub fn len(&self) -> (r: usize)
+        ensures r == self.entries().len(),
+    { unimplemented!() }
+    /// IndexMap::get_index: the i-th entry in insertion order (IndexMap::iter yields exactly these, in this order)
+    #[verifier::external_body]
+    pub fn get_index(&self, i: usize) -> (r: Option<(&K, &V)>)
+        ensures
+            i < self.entries().len() ==> r is Some && *r.unwrap().0 == self.entries()[i as int].0 && *r.unwrap().1 == self.entries()[i as int].1,
+            i >= self.entries().len() ==> r is None,
+    { unimplemented!() }
+}
